@@ -38,6 +38,8 @@ func main() {
 		for _, id := range ids {
 			fmt.Println(id)
 		}
+	case "flipifs":
+		os.Exit(flipIfsMain())
 	case "renamelocals":
 		os.Exit(renameLocalsMain())
 	case "shuffle":
